@@ -501,6 +501,10 @@ func (css *Consensus) batchWorker() {
 			// Commit
 			if err := css.batchingState.Commit(css.ctx); err != nil {
 				logger.Errorf("error commiting batch after reaching max age: %s", err)
+				// The timer has fired and nothing re-arms it while
+				// the batch is not empty: retry after maxAge, or
+				// the batch is never committed.
+				batchTimer.Reset(maxAge)
 				continue
 			}
 			logger.Debugf("batch commit (max age): %d items", batchCurSize)
